@@ -76,6 +76,21 @@ func (t *Collection) reclaimMarkUpdate(nloc *nodeLoc,
 	return n
 }
 
+// Marks the cached, still unmarked nodes of a whole tree.  The caller
+// holds rootLock.
+func (t *Collection) markTreeReclaimableUnlocked(nloc *nodeLoc, reclaimMark *node) {
+	if nloc.isEmpty() {
+		return
+	}
+	n := nloc.Node()
+	if n == nil || n.next != nil || n == reclaimMark {
+		return
+	}
+	n.next = reclaimMark
+	t.markTreeReclaimableUnlocked(&n.left, reclaimMark)
+	t.markTreeReclaimableUnlocked(&n.right, reclaimMark)
+}
+
 func (t *Collection) reclaimNodesUnlocked(n *node,
 	reclaimLater *[3]*node, reclaimMark *node) int64 {
 	if n == nil {
@@ -223,6 +238,7 @@ func (t *Collection) mkRootNodeLoc(root *nodeLoc) *rootNodeLoc {
 	rnl.next = nil
 	rnl.chainedCollection = nil
 	rnl.chainedRootNodeLoc = nil
+	rnl.closed = false
 	for i := 0; i < len(rnl.reclaimLater); i++ {
 		rnl.reclaimLater[i] = nil
 	}
